@@ -46,7 +46,7 @@ theorem mergeFilters_local (db : Db) : LocalOK db mergeFiltersLocal := by
     simp only [Option.some.injEq, Prod.mk.injEq] at h
     obtain ⟨rfl, _⟩ := h
     simp only [Good, UnGood, schema_un] at hg
-    obtain ⟨⟨hsrc, hs2, he2⟩, hs, he⟩ := hg
+    obtain ⟨hnd, ⟨_, hsrc, hs2, he2⟩, hs, he⟩ := hg
     subst hs
     subst hs2
     have hand : ExprOK (src.schema.fields ++ outer) (.nary .and (splitByAnd e ++ splitByAnd e2)) :=
@@ -56,9 +56,9 @@ theorem mergeFilters_local (db : Db) : LocalOK db mergeFiltersLocal := by
         · exact exprOK_conjunct he2 hc
     refine ⟨?_, rfl, ?_⟩
     · simp only [Good, UnGood, true_and]
-      exact ⟨hsrc, hand⟩
+      exact ⟨hnd, hsrc, hand⟩
     · intro ctx hb
-      simp only [denote, unRows, schema_un]
+      simp only [denote, unRows]
       cases hd : denote db src ctx with
       | none => rfl
       | some rows =>
@@ -94,7 +94,7 @@ theorem optFilter_ok {db : Db} {outer : List String} {cs : List PExpr} {p : Plan
   split
   · refine ⟨?_, rfl, ?_⟩
     · simp only [Good, UnGood, true_and]
-      exact ⟨hg, exprOK_and hcs⟩
+      exact ⟨hg.nodup, hg, exprOK_and hcs⟩
     · intro ctx hb
       simp only [denote, unRows]
       cases hd : denote db p ctx with
@@ -280,7 +280,7 @@ theorem pushIntoStreamJoinBranch_local (db : Db) : LocalOK db pushIntoStreamJoin
     · simp only [Option.some.injEq, Prod.mk.injEq] at h
       obtain ⟨rfl, _⟩ := h
       simp only [Good, UnGood, BinGood, schema_bin] at hg
-      obtain ⟨⟨hgl, hgr, hs2, hlk, hrk, hlen⟩, hs, he⟩ := hg
+      obtain ⟨hnd, ⟨_, hgl, hgr, hs2, hlk, hrk, hlen⟩, hs, he⟩ := hg
       subst hs
       rw [hs2] at he
       -- the three classes of conjuncts
@@ -305,7 +305,7 @@ theorem pushIntoStreamJoinBranch_local (db : Db) : LocalOK db pushIntoStreamJoin
       have hrf : (optFilter pR r).fields = r.fields := by simp only [Plan.fields, hr2]
       have hgout : Good db (.bin s (.sjoin lk rk) (optFilter pL l) (optFilter pR r)) outer := by
         simp only [Good, BinGood, hlf, hrf]
-        exact ⟨hl1, hr1, hs2, hlk, hrk, hlen⟩
+        exact ⟨hnd, hl1, hr1, hs2, hlk, hrk, hlen⟩
       have hst : ∀ c ∈ st, ExprOK ((Plan.bin s (.sjoin lk rk) (optFilter pL l) (optFilter pR r)).fields ++ outer) c := by
         intro c hc
         simp only [fields_bin, hs2]
